@@ -38,10 +38,13 @@ def build(e):
     if h in sx.UNARY:
         return CTOR[h](build(e[1]))
     if h in sx.NPARAM:
-        return CTOR[h](build(e[1]), e[2])
+        return CTOR[h](build(e[1]), float(e[2]) if FLOAT_N else e[2])
     if h in sx.BPARAM:
         return CTOR[h](build(e[1]), e[2])
     raise ValueError(h)
+
+
+FLOAT_N = False      # lines prefixed 'NF ': the integer parameter n is passed as an integral float (3.0)
 
 
 def from_obj(o):
@@ -835,8 +838,51 @@ def run_line(line):
 _run_line_inner = run_line
 
 
-def run_line(line):   # noqa: F811
+def bad_param(line):
+    """BADPARAM <cls> <param> <x> <y>: a constructor call with a parameter outside the documented
+    range.  'REJECT' when the constructor raises (what C16 demands); otherwise the object exists, and
+    every route is driven on it: 'ACCEPTED route=KIND ...' (C17: no foreign exception may escape)."""
+    ts = line.split()
+    cls, par = ts[1], sx.parse_num(ts[2])
+    xv, yv = sx.parse_num(ts[3]), sx.parse_num(ts[4])
+    x, y = X.Variable(sx.name_of(2)), X.Variable(sx.name_of(3))
+    inner = {'0': x, '1': X.Add(x, y), '2': X.Multiply(x, y)}[ts[5]] if len(ts) > 5 else x
     try:
+        if cls in ('NthPow', 'NthRoot'):
+            o = CTOR[cls](inner, par)
+        else:
+            o = CTOR[cls](inner, base=par)
+    except Exception:  # noqa: BLE001
+        return 'REJECT'
+    outer = {'0': o, '1': X.Add(o, y), '2': X.Negation(o), '3': X.Minus(y, o)}[ts[6]] if len(ts) > 6 else o
+    pt = Point(**{sx.name_of(2): xv, sx.name_of(3): yv})
+    name = sx.name_of(2)
+    routes = [
+        ('at', lambda: outer.at(pt)),
+        ('partial', lambda: Partial(outer, name).at(pt)),
+        ('partial_early', lambda: Partial(outer, name, compute_early=True).at(pt)),
+        ('located', lambda: LocatedDifferential(outer, pt).component(name)),
+        ('diff', lambda: Differential(outer).at(pt).component(name)),
+        ('diff_compat', lambda: Differential(outer).component_at(name, pt)),
+        ('diff_early', lambda: Differential(outer, compute_early=True).at(pt).component(name)),
+        ('as_expression', lambda: (Partial(outer, name).as_expression(), 0)[1]),
+    ]
+    out = []
+    for nm, th in routes:
+        r = outcome(th)
+        out.append('%s=%s' % (nm, r.replace(' ', ':') if r.startswith('PYERR') else r.split(' ')[0]))
+    return 'ACCEPTED ' + ' '.join(out)
+
+
+def run_line(line):   # noqa: F811
+    global FLOAT_N
+    FLOAT_N = False
+    if line.startswith('NF '):
+        FLOAT_N = True
+        line = line[3:]
+    try:
+        if line.startswith('BADPARAM '):
+            return bad_param(line)
         return _run_line_inner(line)
     except OverflowError:
         # only the step-driving commands let an exception escape: a folded constant left the double range
